@@ -20,6 +20,7 @@ import numpy as np
 
 from harness.core import Machinery, VERIF
 from harness import scenarios
+from harness import simlayout as sl
 
 LEVEL = "model_checking"
 STD = scenarios.STD
@@ -118,6 +119,68 @@ def check_programs(ctx, sid, data, label, simulate=None):
                    env={"PROG_FILE": "prog.json"}, workers=8, timeout=1800, **kw)
 
 
+def figblock_job(comm, shape, nprocs, ord0, reqs, root):
+    """getBlockFromDict for a list of requests on ONE grid; the root returns (starts, sizes, data tokens) per request."""
+    from pygyro.model.grid import Grid
+    h, eta = sl.handler_job(comm, shape, nprocs, {"L": list(ord0)})
+    g = Grid(eta, [None] * len(shape), h, "L", comm)
+    g.getAllData()[:] = sl.local_block(sl.tokens(shape), h.getLayout("L"))
+    out = []
+    for req in reqs:
+        d = {dim: (range(q[0], q[1])) for dim, q in enumerate(req) if q[0] >= 0}
+        r = g.getBlockFromDict(d, comm, root)
+        if comm.Get_rank() == root:
+            _, starts, mpi_data, data = r
+            out.append(([int(x) for x in starts], [int(x) for x in sl.decode(np.asarray(data, dtype=float))]))
+    return out
+
+
+def part_figblock(ctx, rng, quick):
+    """FigBlock.tla: the wire-level model of the figure gather (the code's clipping with numpy slice semantics, piece sizes, Gatherv in
+    rank order) is checked by TLC against the abstract statement (intersection with the rank's block; every requested entry once) on
+    every configuration of a box; the configurations of the dump box are replayed on the real code.  What C06 states - compatible
+    counts - is judged by the simulated MPI layer (a mismatch makes the call fail: violation); the gathered DATA are not part of any
+    listed property: a difference there is reported as drift."""
+    from mpi4py import MPI
+    inv = "INVARIANT ClipIsIntersection\nINVARIANT GatheredIsRequest\n"
+    if not quick:
+        r = ctx.tlc("FigBlock", "INIT Init\nNEXT Next\nCONSTANTS Shapes <- Shapes2 Grids <- Grids5 Wide = TRUE\n" + inv + "CHECK_DEADLOCK FALSE\n",
+                    what="figure gather: every request range on 2 shapes x 6 dimension orders x 5 process grids", workers=16, big=True, timeout=7200)
+        if r.violated:
+            raise Machinery("FigBlock.tla violates %s: %s" % (r.violated, (r.trace_text or "")[:800]))
+    r = ctx.tlc("FigBlock", "INIT Init\nNEXT Next\nCONSTANTS Shapes <- %s Grids <- %s Wide = FALSE\n" % (("Shapes1", "Grids3") if quick else ("Shapes3", "Grids5"))
+                + inv + "INVARIANT Dump\nCHECK_DEADLOCK FALSE\n", what="figure gather: dump box", workers=8)
+    if r.violated:
+        raise Machinery("FigBlock.tla violates %s: %s" % (r.violated, (r.trace_text or "")[:800]))
+    groups = {}
+    for row in r.rows:
+        if row.get("req"):
+            groups.setdefault((tuple(row["sh"]), tuple(row["ord"]), tuple(row["P"])), []).append(row)
+    n = 0
+    for (sh, od, P), rows in sorted(groups.items()):
+        if quick:
+            rows = rng.sample(rows, min(len(rows), 15))
+        nprocs = list(P[:2])
+        size = int(np.prod(nprocs))
+        root = rng.randrange(size)
+        reqs = [[list(q) for q in row["req"]] for row in rows]
+        res = MPI.run(size, figblock_job, policy=rng.choice(["asc", "desc", "random", "rr"]), seed=rng.randint(0, 10 ** 6),
+                      args=(list(sh), nprocs, [d - 1 for d in od], reqs, root))
+        if not res.ok:
+            ctx.violation({"kind": "figure-gather-fails", "scenario": "figblock-box"}, "getBlockFromDict on shape %s, layout %s, process grid %s, root %d: %s" % (
+                list(sh), list(od), nprocs, root, res.describe()[:500]), {"sh": list(sh), "ord": list(od), "nprocs": nprocs, "root": root})
+            continue
+        got = res.values[root]
+        for row, (starts, data) in zip(rows, got):
+            n += 1
+            ctx.count(("figblock-box", sh, od, P, json.dumps(row["req"])))
+            want_starts = [int(x) for x in np.concatenate([[0], np.cumsum(row["sizes"])[:-1]])]
+            if starts != want_starts or data != [int(x) for x in row["data"]]:
+                ctx.drift_report("figure gather %s on shape %s layout %s grid %s: starts %s / data %s, FigBlock.tla %s / %s" % (
+                    row["req"], list(sh), list(od), nprocs, starts, data[:12], want_starts, row["data"][:12]))
+    ctx.extra["figure_gathers_replayed"] = n
+
+
 def run(ctx):
     rng = random.Random(ctx.seed)
     quick = ctx.quick()
@@ -137,6 +200,7 @@ def run(ctx):
                               "Routes.tla (transcription of _makeConnectionMap) violates %s:\n%s" % (r.violated, (r.trace_text or "")[:3000]),
                               {"spec": "Routes", "N": n})
             ctx.log("Routes N=%d: %d states (%.1fs) %s" % (n, r.distinct, r.wall, r.violated or "ok"))
+        part_figblock(ctx, rng, quick)
         # ---- record programs under several interpreter hash seeds
         K = 4 if quick else 12
         jobs = build_jobs(work, quick, rng)
